@@ -129,9 +129,10 @@ pub fn guard<T>(f: impl FnOnce() -> T) -> Result<T, String> {
 
 struct Slot {
     started: Instant,
-    stage: String,
-    kind: String,
-    case: Value,
+    stage: &'static str,
+    kind: &'static str,
+    /// lazily rendered (only when the watchdog fires)
+    case: Box<dyn Fn() -> Value + Send>,
 }
 
 static SLOTS: OnceLock<Mutex<Vec<Option<Slot>>>> = OnceLock::new();
@@ -141,7 +142,9 @@ fn slots() -> &'static Mutex<Vec<Option<Slot>>> {
     SLOTS.get_or_init(|| Mutex::new(Vec::new()))
 }
 
-fn slot_enter(stage: &str, kind: &str, case: impl FnOnce() -> Value) {
+fn slot_enter<C: Case>(stage: &'static str, kind: &'static str, c: &C) {
+    let cc = c.clone();
+    let case: Box<dyn Fn() -> Value + Send> = Box::new(move || cc.to_json());
     let mut s = slots().lock().unwrap();
     let idx = MY_SLOT.with(|m| {
         if m.get() == usize::MAX {
@@ -150,7 +153,7 @@ fn slot_enter(stage: &str, kind: &str, case: impl FnOnce() -> Value) {
         }
         m.get()
     });
-    s[idx] = Some(Slot { started: Instant::now(), stage: stage.to_string(), kind: kind.to_string(), case: case() });
+    s[idx] = Some(Slot { started: Instant::now(), stage, kind, case });
 }
 
 fn slot_leave() {
@@ -172,7 +175,7 @@ pub fn start_watchdog(ctx: Arc<Ctx>) {
         std::thread::sleep(Duration::from_millis(500));
         let hit = {
             let s = slots().lock().unwrap();
-            s.iter().flatten().find(|sl| sl.started.elapsed() > Duration::from_secs(WATCHDOG_SECS)).map(|sl| (sl.stage.clone(), sl.kind.clone(), sl.case.clone()))
+            s.iter().flatten().find(|sl| sl.started.elapsed() > Duration::from_secs(WATCHDOG_SECS)).map(|sl| (sl.stage.to_string(), sl.kind.to_string(), (sl.case)()))
         };
         if let Some((stage, kind, case)) = hit {
             let path = ctx.write_replay(&stage, &kind, &case, "single case exceeded the watchdog limit (suspected hang)", "watchdog");
@@ -458,7 +461,7 @@ impl Ctx {
     // ---------------------------------------------------------------------------------------
     // enumerated stage (sequential iterator, work distributed over threads in chunks)
     // ---------------------------------------------------------------------------------------
-    pub fn run_enumerated<C, F>(&self, stage: &str, kind: &str, cases: Vec<C>, exhaustive: Option<&str>, check: F)
+    pub fn run_enumerated<C, F>(&self, stage: &'static str, kind: &'static str, cases: Vec<C>, exhaustive: Option<&str>, check: F)
     where
         C: Case + Sync,
         F: Fn(&C) -> Verdict + Sync,
@@ -481,7 +484,7 @@ impl Ctx {
                         }
                         for i in start..(start + chunk as usize).min(n) {
                             let c = &cases[i];
-                            slot_enter(stage, kind, || c.to_json());
+                            slot_enter(stage, kind, c);
                             let v = guard(|| check(c));
                             slot_leave();
                             match v {
@@ -515,7 +518,7 @@ impl Ctx {
     // ---------------------------------------------------------------------------------------
     // generated stage (proptest, sharded)
     // ---------------------------------------------------------------------------------------
-    pub fn run_generated<C, S, M, F>(&self, stage: &str, kind: &str, total_cases: u64, make: M, check: F)
+    pub fn run_generated<C, S, M, F>(&self, stage: &'static str, kind: &'static str, total_cases: u64, make: M, check: F)
     where
         C: Case,
         S: Strategy<Value = C>,
@@ -551,7 +554,7 @@ impl Ctx {
                         if self.stop.load(Ordering::SeqCst) || (stage_stop.load(Ordering::SeqCst) && !failed.get()) {
                             return Ok(());
                         }
-                        slot_enter(stage, kind, || c.to_json());
+                        slot_enter(stage, kind, &c);
                         let v = guard(|| check(&c));
                         slot_leave();
                         match v {
@@ -622,8 +625,8 @@ impl Ctx {
     }
 
     /// Single ad-hoc case (regression files, known findings)
-    pub fn run_single<C: Case>(&self, stage: &str, kind: &str, case: &C, check: impl Fn(&C) -> Verdict) -> Option<Verdict> {
-        slot_enter(stage, kind, || case.to_json());
+    pub fn run_single<C: Case>(&self, stage: &'static str, kind: &'static str, case: &C, check: impl Fn(&C) -> Verdict) -> Option<Verdict> {
+        slot_enter(stage, kind, case);
         let v = guard(|| check(case));
         slot_leave();
         match v {
